@@ -16,27 +16,60 @@ ROT = ["RX", "RY", "RZ"]
 ROT2 = ["IsingXX", "IsingYY", "IsingZZ"]
 
 
-def gen_case(rng, share=True):
+FIXED1 = [("Hadamard", ()), ("SX", ()), ("T", ()), ("S", ()), ("S", ({"t": "adj"},)), ("T", ({"t": "adj"},))]
+EXTRA1 = ["PhaseShift"]
+EXTRA2 = ["CRX", "CRY", "CRZ", "ControlledPhaseShift"]
+
+
+def _fixed(rng, w):
+    name, mods = rng.choice(FIXED1)
+    return rec(name, [w], mods=list(mods))
+
+
+def gen_case(rng, share=True, style="layer", extra=False):
+    """style 'layer': gates queued layer by layer; 'wirewise': queued wire by wire (RX(i); RY(i) per wire), so the cone of a
+    later layer is not queued after the cone of an earlier one; fixed non-self-inverse gates (S, T, SX, adjoints) sit between
+    trainable gates.  extra: trainable gates whose generator is not a Pauli word (PhaseShift, controlled rotations)."""
     n = rng.choice([2, 2, 3])
     m = rng.randint(2, 4) if share else 5
     x = [rng.randrange(1, 16) for _ in range(m)]
     ops, tr, used = [], [], set()
-    for w in range(1, n + 1):
-        if rng.random() < 0.7:
-            ops.append(rec(rng.choice(["Hadamard", "SX", "T"]), [w]))
-    for layer in range(rng.randint(1, 3)):
+    r1 = ROT + (EXTRA1 if extra else [])
+    r2 = ROT2 + (EXTRA2 if extra else [])
+
+    def train(name, wires):
+        i = rng.randrange(m) if share else len(tr)
+        g = rec(name, wires, [x[i] % 32])
+        g["aff"] = (i, 1, 0)
+        tr.append(len(ops)); ops.append(g); used.add(i)
+
+    if style == "wirewise":
+        for w in range(n, 0, -1):                  # fixed gates queued on the last wire first
+            if rng.random() < 0.8:
+                ops.append(_fixed(rng, w))
+        for rep in range(rng.randint(1, 2)):
+            for w in range(1, n + 1):
+                for _ in range(rng.randint(1, 2)):
+                    if len(tr) < 5:
+                        train(rng.choice(r1), [w])
+                if rng.random() < 0.5:
+                    ops.append(_fixed(rng, w))
+            if rng.random() < 0.6 and len(tr) < 5:
+                train(rng.choice(r2), rng.sample(range(1, n + 1), 2))
+            ops.append(rec(rng.choice(["CNOT", "CZ"]), rng.sample(range(1, n + 1), 2)))
+    else:
         for w in range(1, n + 1):
-            if rng.random() < 0.75 and len(tr) < 5:
-                i = rng.randrange(m) if share else len(tr)
-                g = rec(rng.choice(ROT), [w], [x[i] % 32])
-                g["aff"] = (i, 1, 0)
-                tr.append(len(ops)); ops.append(g); used.add(i)
-        if rng.random() < 0.5 and len(tr) < 5:
-            i = rng.randrange(m) if share else len(tr)
-            g = rec(rng.choice(ROT2), rng.sample(range(1, n + 1), 2), [x[i] % 32])
-            g["aff"] = (i, 1, 0)
-            tr.append(len(ops)); ops.append(g); used.add(i)
-        ops.append(rec(rng.choice(["CNOT", "CZ"]), rng.sample(range(1, n + 1), 2)))
+            if rng.random() < 0.7:
+                ops.append(rec(rng.choice(["Hadamard", "SX", "T"]), [w]))
+        for layer in range(rng.randint(1, 3)):
+            for w in range(1, n + 1):
+                if rng.random() < 0.75 and len(tr) < 5:
+                    train(rng.choice(r1), [w])
+            if rng.random() < 0.5 and len(tr) < 5:
+                train(rng.choice(r2), rng.sample(range(1, n + 1), 2))
+            ops.append(rec(rng.choice(["CNOT", "CZ"]), rng.sample(range(1, n + 1), 2)))
+            if rng.random() < 0.6:
+                ops.append(_fixed(rng, rng.randint(1, n)))
     if not share:
         x = x[:len(tr)]
         m = len(x)
@@ -44,7 +77,8 @@ def gen_case(rng, share=True):
         if i not in used:
             g = rec("RY", [rng.randint(1, n)], [x[i] % 32]); g["aff"] = (i, 1, 0)
             tr.append(len(ops)); ops.append(g)
-    return {"n": n, "x": x, "ops": ops, "tr": tr, "meas": ("expval", [3] + [0] * (n - 1))}
+    fam = sorted({ops[k]["g"] for k in tr if ops[k]["g"] in EXTRA1 + EXTRA2})
+    return {"n": n, "x": x, "ops": ops, "tr": tr, "meas": ("expval", [3] + [0] * (n - 1)), "fam": "+".join(fam) or "pauli-rotations", "style": style}
 
 
 def exact_metric(c, st):
@@ -59,7 +93,8 @@ def exact_metric(c, st):
 def run(tier, seed):
     rng = random.Random(3800 + seed)
     deriv.selfcheck("C38", M)
-    cases = [gen_case(rng, share=(i % 2 == 0)) for i in range(16 if tier == "quick" else 250)]
+    nc = 24 if tier == "quick" else 300
+    cases = [gen_case(rng, share=(i % 2 == 0), style=("layer", "wirewise", "wirewise")[i % 3], extra=(i % 4 == 3)) for i in range(nc)]
     cases = [c for c in cases if c["x"]]
     sts, stats = deriv.states("C38", [{"n": c["n"], "ops": tlc_ops(c), "tr": c["tr"]} for c in cases], M, order=1)
     from pennylane import numpy as pnp
@@ -74,6 +109,12 @@ def run(tier, seed):
                "metric_tensor[diag]": lambda: qp.metric_tensor(qn, approx="diag")(xs),
                "adjoint_metric_tensor": lambda: qp.adjoint_metric_tensor(qn)(xs),
                "quantum_fisher": lambda: qp.gradients.quantum_fisher(qn)(xs)}
+        if ci % 3 == 0 or tier != "quick":
+            # the same functions on devices without the adjoint shortcut (quantum_fisher then goes through metric_tensor)
+            for dn in ("default.mixed", "reference.qubit"):
+                qd = qp.QNode(build_ops_fn(c), qp.device(dn, wires=c["n"] + 1), interface="autograd")
+                fns[f"quantum_fisher@{dn}"] = (lambda q=qd: qp.gradients.quantum_fisher(q)(xs))
+                fns[f"metric_tensor@{dn}"] = (lambda q=qd: qp.metric_tensor(q, approx=None)(xs))
         for tag, fn in fns.items():
             try:
                 got = np.asarray(fn(), dtype=float)
@@ -81,7 +122,7 @@ def run(tier, seed):
                 rej[f"{tag}:{type(e).__name__}"] = rej.get(f"{tag}:{type(e).__name__}", 0) + 1
                 continue
             n_cmp += 1
-            exp = 4 * G if tag == "quantum_fisher" else G
+            exp = 4 * G if tag.startswith("quantum_fisher") else G
             if got.shape != exp.shape:
                 viol.append(Violation(key=f"{tag}:shape", detail=f"{got.shape} vs {exp.shape}", replay={"case": c}))
                 continue
@@ -97,7 +138,7 @@ def run(tier, seed):
             else:
                 ok = np.allclose(got, exp, atol=1e-7)
             if not ok:
-                viol.append(Violation(key=f"{tag}:wrong-metric", detail=f"{tag}: got {np.round(got, 6).tolist()} expected {np.round(exp, 6).tolist()} for {tlc_ops(c)} x={c['x']}",
+                viol.append(Violation(key=f"{tag}:wrong-metric:{c['fam']}", detail=f"{tag}: got {np.round(got, 6).tolist()} expected {np.round(exp, 6).tolist()} for {tlc_ops(c)} x={c['x']}",
                                       replay={"case": c, "fn": tag}))
             elif np.max(np.abs(G - np.diag(np.diag(G)))) > 1e-6:
                 nontriv.add(ci)
@@ -106,7 +147,7 @@ def run(tier, seed):
     if np.allclose(np.array([0.25]), np.array([0.25 + 1e-5]), atol=1e-7):
         raise lib.MachineryError("negative control accepted")
     cov = {"states": stats["distinct"], "transitions": stats["generated"], "traces_validated_against_impl": n_cmp, "evaluations": n_cmp,
-           "distinct_nontrivial": len(nontriv), "rule": "layered circuits (2-3 wires, up to 5 trainable rotations, 2-4 shared arguments); non-trivial = "
+           "distinct_nontrivial": len(nontriv), "rule": "circuits queued layer by layer or wire by wire (2-3 wires, up to 5 trainable gates incl. PhaseShift / controlled rotations in a quarter of them, fixed S / T / SX / adjoints between them, 2-4 shared arguments), default.qubit plus default.mixed / reference.qubit; non-trivial = "
            "distinct circuits whose exact metric tensor has off-diagonal entries and on which every accepting function agreed",
            "samples": samples, "rejections": rej, "negative_controls_rejected": 1}
     return CheckResult(coverage=cov, violations=viol, assumptions=[
